@@ -1,13 +1,59 @@
-import QR.Model.Segment
-import QR.Spec.Segmentation
+import QR.Proofs.Segmentation
 /-
-C10 - segmentation.  (Theorems under construction: lossless / valid / zero-threshold first.)
+C10 - segmentation is lossless, uses valid and most-compact modes, honours the optimize threshold.
+`Model.addData` mirrors QRCode.add_data / util.optimal_data_chunks / _optimal_split with the four regular expressions as
+run scanners; `Spec.segmentation n d segs` states the five clauses of the property as predicates on the outcome (it does not
+prescribe an algorithm).  Every statement is for ALL byte strings d and ALL thresholds n.
 -/
 namespace QR.Props
 open QR QR.Model
 
-/-- threshold 0: exactly one segment holding the whole data -/
+/-- **C10 (main)**: all five clauses hold for the segments of every `add_data(d, optimize=n)` -/
+theorem C10_segmentation (d : List Nat) (n : Nat) :
+    ∀ ps, toPSegs (addData d n) = some ps → (Spec.segmentation n d ps).ok = true :=
+  _root_.QR.C10_segmentation d n
+
+/-- the segments always have one of the three supported modes (the hypothesis above is never vacuous) -/
+theorem C10_modes (d : List Nat) (n : Nat) : ∃ ps, toPSegs (addData d n) = some ps :=
+  _root_.QR.addData_toPSegs d n
+
+/-- lossless: the segments concatenate to exactly the supplied bytes -/
+theorem C10_lossless (d : List Nat) (n : Nat) : (addData d n).flatMap (·.data) = d :=
+  _root_.QR.addData_flatMap_data d n
+
+/-- valid: numeric segments hold ASCII digits only, alphanumeric ones the 45-character set only -/
+theorem C10_valid (d : List Nat) (n : Nat) :
+    ∀ ps, toPSegs (addData d n) = some ps → (Spec.segmentation n d ps).valid = true :=
+  _root_.QR.segmentation_valid d n
+
+/-- threshold 0: exactly one segment, in the most compact mode able to represent the data -/
+theorem C10_zero (d : List Nat) (n : Nat) :
+    ∀ ps, toPSegs (addData d n) = some ps → (Spec.segmentation n d ps).thresholdZero = true :=
+  _root_.QR.segmentation_thresholdZero d n
+
+/-- threshold n > 0: every run of ≥ n digits is carried in numeric mode, every run of ≥ n alphanumeric characters outside
+    those digit runs in alphanumeric mode -/
+theorem C10_runs (d : List Nat) (n : Nat) :
+    ∀ ps, toPSegs (addData d n) = some ps → (Spec.segmentation n d ps).runsCarried = true :=
+  _root_.QR.segmentation_runsCarried d n
+
+/-- and when the data is longer than n no numeric or alphanumeric segment is shorter than n -/
+theorem C10_min_len (d : List Nat) (n : Nat) :
+    ∀ ps, toPSegs (addData d n) = some ps → (Spec.segmentation n d ps).minLength = true :=
+  _root_.QR.segmentation_minLength d n
+
+/-- a requested mode that cannot represent the data is rejected (ValueError) instead of being mis-encoded -/
+theorem C10_explicit_rejected (d : List Nat) (m : Nat) (hm : m = 1 ∨ m = 2 ∨ m = 4) :
+    (∃ md, Spec.Mode.ofIndicator m = some md ∧ Spec.canRepresent md d = false) →
+    mkQRData d (some m) true = .error .valueError :=
+  _root_.QR.mkQRData_rejects d m hm
+
+/-- threshold 0 shape -/
 theorem C10_zero_single (d : Bytes) : addData d 0 = [{ mode := optimalMode d, data := d }] := by
   simp [addData]
+
+/-- non-vacuity (tests of the statement on concrete data): "AB1234567cd" with threshold 4 -/
+example : addData [65, 66, 49, 50, 51, 52, 53, 54, 55, 99, 100] 4 =
+    [⟨4, [65, 66]⟩, ⟨1, [49, 50, 51, 52, 53, 54, 55]⟩, ⟨4, [99, 100]⟩] := by decide
 
 end QR.Props
